@@ -185,6 +185,11 @@ def run(ctx):
                         ctx.fail('cropped file: ' + p, dict(d, widened=wbox, shared_cropper=shared is not None))
                 if shared is not None:
                     shared.close()
+        # the sample axis of crops along z (every block multiple, intervals that are not whole milliseconds) and of crops of
+        # crops (double-precision start / interval fields, an intermediate start of exactly 0.0 ms): shared with C05
+        from . import c05
+        c05.z_crop_axes(ctx, gen.rng_for(ctx.seed, 'c10-zcrop'))
+        c05.z_crop_chains(ctx, gen.rng_for(ctx.seed, 'c10-zcrop-chains'))
     finally:
         model.close()
 
